@@ -208,3 +208,135 @@ TERMINAL_NODES = REG3.add(Contract(
                     "distinct": "term_distinct(termini)"}, modifies=["_tw"])},
     spec_fns=dict(term_sound=term_sound, term_complete=term_complete, term_complete_wit=term_complete_wit, term_distinct=term_distinct),
     props=("C12",), note="networkx degree is an uninterpreted function of the adjacency relation (its graph-theoretic meaning is supplied in the conformance test)"))
+
+
+# ---- gen_seq connect records: generate_templates.find_atoms (ordered filter) and gen_seq._add_edges ----------------------------------
+from pyvc.types import TConst as _TC, TOpt as _TO      # noqa: E402
+BATTR = TRec("nodeattrs", seqid=_TO(TInt))
+BG = TGraph(BATTR, key=TInt, ordered=True)
+REG4 = Registry()
+_NT = BG.fields["nodes"]
+_NSORTS = _NT.sorts()
+BLK_LEN = z3.Function("block_size", *(_NSORTS + [z3.IntSort(), z3.IntSort()]))            # number of nodes of the block with a given seqid
+BLK_ELT = z3.Function("block_node", *(_NSORTS + [z3.IntSort(), z3.IntSort(), z3.IntSort()]))   # its i-th node in insertion order
+y_ = z3.Int("y_")
+
+
+def in_block(g, x, value):
+    nd = g.fields["nodes"]
+    a = nd.v.unflat([c[x] for c in nd.comps]).fields["seqid"]
+    return z3.And(z3.Select(nd.dom, x), z3.Not(a.none), a.val == value)
+
+
+def filt_sound(g, value, Y, upto=None):
+    e = slist_get(Y, i_)
+    nd = g.fields["nodes"]
+    seen = z3.BoolVal(True) if upto is None else nd.pos[e] < upto
+    return z3.ForAll([i_], z3.Implies(z3.And(0 <= i_, i_ < Y.n), z3.And(in_block(g, e, value), seen)))
+
+
+def filt_ordered(g, Y):
+    nd = g.fields["nodes"]
+    return z3.ForAll([i_, j_], z3.Implies(z3.And(0 <= i_, i_ < j_, j_ < Y.n), nd.pos[slist_get(Y, i_)] < nd.pos[slist_get(Y, j_)]))
+
+
+def filt_complete_wit(g, value, Y, w, upto):
+    nd = g.fields["nodes"]
+    wi = w.comps[0][y_]
+    return z3.ForAll([y_], z3.Implies(z3.And(in_block(g, y_, value), nd.pos[y_] < upto), z3.And(0 <= wi, wi < Y.n, slist_get(Y, wi) == y_)))
+
+
+def filt_complete(g, value, Y):
+    return z3.ForAll([y_], z3.Implies(in_block(g, y_, value), z3.Exists([i_], z3.And(0 <= i_, i_ < Y.n, slist_get(Y, i_) == y_))))
+
+
+def named_block(g, value, Y):
+    fl = _NT.flat(g.fields["nodes"])
+    return z3.And(Y.n == BLK_LEN(*fl, value), z3.ForAll([i_], z3.Implies(z3.And(0 <= i_, i_ < Y.n), slist_get(Y, i_) == BLK_ELT(*fl, value, i_))))
+
+
+def _hook_blk(eng, env):
+    w, Y, x = env["_bw"], env["nodes"], env["node"]
+    env["_bw"] = _SD(w.k, w.v, w.dom, [z3.Store(w.comps[0], x, Y.n - 1)])
+
+
+BLOCK_NODES = REG4.add(Contract(
+    "polyply.src.generate_templates:find_atoms", params=dict(molecule=BG, attr=_TC("seqid"), value=TInt), result=TList(TInt),
+    ensures={"every listed node carries the attribute with that value": "filt_sound(molecule, value, result)",
+             "every such node is listed": "filt_complete(molecule, value, result)",
+             "in insertion order of the nodes (so none twice)": "filt_ordered(molecule, result)"},
+    defines={"the result is a function of the node table and the value (ghost: block_size, block_node)": "named_block(molecule, value, result)"},
+    locals={"nodes": TList(TInt)}, ghost_locals={"_bw": _TD(TInt, TInt)}, ghost={"after:nodes.append(node)": _hook_blk},
+    loops={0: Loop({"sound": "filt_sound(molecule, value, nodes, k)", "complete (ghost index)": "filt_complete_wit(molecule, value, nodes, _bw, k)",
+                    "ordered": "filt_ordered(molecule, nodes)"}, modifies=["_bw"])},
+    spec_fns=dict(filt_sound=filt_sound, filt_complete=filt_complete, filt_complete_wit=filt_complete_wit, filt_ordered=filt_ordered, named_block=named_block),
+    props=("C12",), note="instance attr='seqid' (how gen_seq addresses the residues of a macro block); the node table keeps insertion order"))
+
+
+NUM = TRec("NumToken", value=TInt)                 # a piece of text that int() turns into `value` (surrounding blanks ignored)
+ETOK = TRec("EdgeToken", a=TInt, b=TInt)           # one 'a-b' entry of a connect record
+ESTR = TRec("EdgeString", tokens=TList(ETOK))      # the text 'a-b,c-d,...' of a connect record, as the list of its entries
+REG4.add(Contract("EdgeString:split", params=dict(self=ESTR, sep=_TC(",")), result=TList(ETOK),
+                  ensures={"the entries between the commas": "same_tokens(result, self.tokens)"},
+                  spec_fns=dict(same_tokens=lambda r, t: TList(ETOK).eq(r, t)), trusted=True, note="str.split(','): text handling, assumed"))
+REG4.add(Contract("EdgeToken:split", params=dict(self=ETOK, sep=_TC("-")), result=TTuple(NUM, NUM),
+                  ensures={"the two numbers around the dash (the format has no sign: the dash separates)": "result[0].value == self.a and result[1].value == self.b and self.a >= 0 and self.b >= 0"}, trusted=True,
+                  note="str.split('-') of one entry: text handling, assumed (a malformed entry is outside this model)"))
+
+
+def edges_added(g, g0, estr, idx, jdx, upto):
+    """exactly the stated bonds are added (for the first `upto` entries): entry 'a-b' joins the a-th residue of block idx with the b-th
+    residue of block jdx (positions in insertion order); every other pair of residues is bonded as before; residues are untouched"""
+    fl = _NT.flat(g0.fields["nodes"])
+    toks = estr.fields["tokens"]
+    t = slist_get(toks, t_)
+    na, nb = BLK_ELT(*fl, idx, t.fields["a"]), BLK_ELT(*fl, jdx, t.fields["b"])
+    stated = z3.Exists([t_], z3.And(0 <= t_, t_ < upto, z3.Or(z3.And(i_ == na, j_ == nb), z3.And(i_ == nb, j_ == na))))
+    same_nodes = z3.And(*[a == b for a, b in zip(_NT.flat(g.fields["nodes"]), fl)])      # the node table is the same value (array equalities)
+    return z3.And(same_nodes, z3.ForAll([i_, j_], adj(g, i_, j_) == z3.Or(adj(g0, i_, j_), stated)))
+
+
+t_ = z3.Int("t_")
+ADD_EDGES = REG4.add(Contract(
+    "polyply.src.gen_seq:_add_edges", params=dict(graph=BG, edges=ESTR, idx=TInt, jdx=TInt), result=BG,
+    raises_when={"OSError": "True"},
+    modifies=["graph.adj"],
+    ensures={"exactly the bonds the connect record states are added, between the residues it addresses by block and position; nothing else changes":
+             "edges_added(graph, old(graph), edges, idx, jdx, len(edges.tokens))",
+             "the graph itself is returned": "BG_eq(result, graph)"},
+    loops={0: Loop({"entries so far": "edges_added(graph, old(graph), edges, idx, jdx, k) and same_tokens(_seq0, edges.tokens)"})},
+    spec_fns=dict(edges_added=edges_added, BG_eq=lambda a, b: BG.eq(a, b) if a is not None else z3.BoolVal(False), same_tokens=lambda r, t: TList(ETOK).eq(r, t)),
+    props=("C12",), note="the text of the connect record is modelled as the list of its 'a-b' entries (splitting and int() assumed); find_atoms through its proved contract; "
+                         "IOError for a block or a position that does not exist"))
+
+
+def _blocks_witness(rnd, with_edges):
+    n = rnd.randint(1, 6)
+    keys = rnd.sample(range(8), n)
+    nodes = {k: {"seqid": rnd.choice([None, 0, 1, 1, 2])} for k in keys}
+    g = {"nodes": nodes, "adj": set()}
+
+    def block(v):
+        return [k for k in nodes if nodes[k]["seqid"] == v]
+    ghosts = {"block_size": lambda *a: len(block(int(a[-1]))),
+              "block_node": lambda *a: (block(int(a[-2]))[int(a[-1])] if 0 <= int(a[-1]) < len(block(int(a[-2]))) else -7), "__window__": 10}
+    if not with_edges:
+        return {"molecule": g, "attr": "seqid", "value": rnd.choice([0, 1, 2, 5])}, ghosts
+    idx, jdx = rnd.choice([0, 1, 2]), rnd.choice([0, 1, 2])
+    toks = [{"a": rnd.randint(0, 2), "b": rnd.randint(0, 2)} for _ in range(rnd.randint(1, 3))]
+    return {"graph": g, "edges": {"tokens": toks}, "idx": idx, "jdx": jdx}, ghosts
+
+
+def _real_block_graph(d):
+    import networkx as nx
+    g = nx.Graph()
+    for k, a in d["nodes"].items():
+        g.add_node(k, **{f: v for f, v in a.items() if v is not None})
+    g.add_edges_from((x, y) for x, y in d["adj"] if x < y)
+    return g
+
+
+BLOCK_NODES.witness = lambda rnd: _blocks_witness(rnd, False)
+BLOCK_NODES.adapt = lambda a: {"molecule": _real_block_graph(a["molecule"]), "attr": a["attr"], "value": a["value"]}
+ADD_EDGES.witness = lambda rnd: _blocks_witness(rnd, True)
+ADD_EDGES.adapt = lambda a: {"graph": _real_block_graph(a["graph"]), "edges": ",".join(f"{t['a']} - {t['b']}" for t in a["edges"]["tokens"]), "idx": a["idx"], "jdx": a["jdx"]}
